@@ -218,6 +218,179 @@ pub fn check_multiset(ms: &[u64], cost: &dyn Fn(Code, u64) -> u64, deep: bool, o
     }
 }
 
+/// The statistics types are generic in how many codes of each family they track.  The same oracle
+/// for an instantiation other than the default one: every field = sum of reference lengths under
+/// the code it denotes, merge = union, best_code = argmin, the wrapper on writes and reads.
+fn param_sweep<const Z: usize, const G: usize, const EG: usize, const R: usize, const P: usize>(prop: &str, out: &mut Outcome) {
+    let cfg = format!("CodesStats<{},{},{},{},{}>", Z, G, EG, R, P);
+    out.cov.configs.insert(cfg.clone());
+    let mut t: Vec<(String, Code)> = vec![("unary".to_string(), Code::Unary), ("gamma".into(), Code::Gamma), ("delta".into(), Code::Delta), ("omega".into(), Code::Omega), ("vbyte".into(), Code::VByteBe)];
+    for k in 0..Z {
+        t.push((format!("zeta[{}]", k), Code::Zeta(k as u32 + 1)));
+    }
+    for b in 0..G {
+        t.push((format!("golomb[{}]", b), Code::Golomb(b as u64 + 1)));
+    }
+    for k in 0..EG {
+        t.push((format!("exp_golomb[{}]", k), Code::ExpGolomb(k as u32)));
+    }
+    for k in 0..R {
+        t.push((format!("rice[{}]", k), Code::Rice(k as u32)));
+    }
+    for k in 0..P {
+        t.push((format!("pi[{}]", k), Code::Pi(k as u32 + 2)));
+    }
+    let flds = |s: &CodesStats<Z, G, EG, R, P>| -> Vec<u64> {
+        let mut f = vec![s.unary, s.gamma, s.delta, s.omega, s.vbyte];
+        f.extend(s.zeta);
+        f.extend(s.golomb);
+        f.extend(s.exp_golomb);
+        f.extend(s.rice);
+        f.extend(s.pi);
+        f
+    };
+    let mut report = |out: &mut Outcome, op: &str, sym: &str, detail: String| {
+        if out.violations.len() < 12 {
+            out.violations.push(Violation { property: prop.into(), system: "stats-params".into(), config: cfg.clone(), op_class: op.into(), symptom: sym.into(), detail, replay: json!({"kind": "none"}) });
+        }
+    };
+    let values: [u64; 9] = [0, 1, 5, 63, 64, 1023, 65537, 1 << 32, (1 << 40) + 1];
+    let r = std::panic::catch_unwind(std::panic::AssertUnwindSafe(|| {
+        let mut a = CodesStats::<Z, G, EG, R, P>::default();
+        let mut b = CodesStats::<Z, G, EG, R, P>::default();
+        let mut want = vec![0u64; t.len()];
+        let mut errs: Vec<(String, String, String)> = vec![];
+        for (i, &v) in values.iter().enumerate() {
+            if i % 2 == 0 {
+                a.update(v);
+            } else {
+                b.update_many(v, 3);
+            }
+            let mult = if i % 2 == 0 { 1 } else { 3 };
+            for (j, (_, c)) in t.iter().enumerate() {
+                want[j] += ref_len(*c, v) as u64 * mult;
+            }
+        }
+        let mut m = a;
+        m += b;
+        if flds(&m) != want || m.total != 5 + 4 * 3 {
+            let got = flds(&m);
+            let j = (0..want.len()).find(|&j| got[j] != want[j]);
+            errs.push(("update".into(), "total".into(), match j {
+                Some(j) => format!("after observing {:?} (odd positions three times), field {} = {}, the codewords of {:?} need {} bits", values, t[j].0, got[j], t[j].1, want[j]),
+                None => format!("element count {} instead of 17", m.total),
+            }));
+        }
+        let (bc, cost) = m.best_code();
+        let minv = *want.iter().min().unwrap();
+        let denotes = code_of_codes(&bc).map(|c| t.iter().position(|(_, tc)| *tc == c || (c == Code::VByteLe && *tc == Code::VByteBe)));
+        match denotes {
+            Some(Some(j)) if want[j] == minv && cost == minv => {}
+            _ => errs.push(("best_code".into(), "value".into(), format!("best_code() = ({:?}, {}), the minimum total is {}", bc, cost, minv))),
+        }
+        // through the wrapper: writes, then reads
+        let w = CodesStatsWrapper::<Codes, Z, G, EG, R, P>::new(Codes::Delta);
+        let mut wr = BufBitWriter::<LE, _>::new(MemWordWriterVec::new(Vec::<u64>::new()));
+        let mut wantw = vec![0u64; t.len()];
+        for (i, &v) in values.iter().enumerate() {
+            let n = if i % 2 == 0 { DynamicCodeWrite::write(&w, &mut wr, v).unwrap() } else { StaticCodeWrite::write(&w, &mut wr, v).unwrap() };
+            if n as u128 != ref_len(Code::Delta, v) {
+                errs.push(("wrapper-write".into(), "length".into(), format!("write of {} through the wrapper returned {}", v, n)));
+            }
+            for (j, (_, c)) in t.iter().enumerate() {
+                wantw[j] += ref_len(*c, v) as u64;
+            }
+        }
+        let data = wr.into_inner().unwrap().into_inner();
+        let (_, st) = w.into_inner();
+        if flds(&st) != wantw || st.total != values.len() as u64 {
+            errs.push(("wrapper-write".into(), "total".into(), "statistics gathered on writes through the wrapper differ from the sum of codeword lengths".to_string()));
+        }
+        let w = CodesStatsWrapper::<Codes, Z, G, EG, R, P>::new(Codes::Delta);
+        let mut rd = BufBitReader::<LE, _>::new(MemWordReader::new(&data[..]));
+        for (i, &v) in values.iter().enumerate() {
+            let x = if i % 2 == 0 { DynamicCodeRead::read(&w, &mut rd).unwrap() } else { StaticCodeRead::read(&w, &mut rd).unwrap() };
+            if x != v {
+                errs.push(("wrapper-read".into(), "value".into(), format!("read {} for {}", x, v)));
+            }
+        }
+        let st = *w.stats().lock().unwrap();
+        if flds(&st) != wantw || st.total != values.len() as u64 {
+            errs.push(("wrapper-read".into(), "total".into(), "statistics gathered on reads through the wrapper differ from the sum of codeword lengths".to_string()));
+        }
+        errs
+    }));
+    out.cov.evaluations += 4 * values.len() as u64;
+    out.cov.nontrivial += 1;
+    match r {
+        Ok(errs) => {
+            for (op, sym, d) in errs {
+                report(out, &op, &sym, d);
+            }
+        }
+        Err(p) => report(out, "update/wrapper", "panic", format!("panicked: {}", crate::util::panic_msg(&p))),
+    }
+}
+
+pub fn param_sweeps(prop: &str, out: &mut Outcome) {
+    param_sweep::<10, 20, 10, 10, 10>(prop, out);
+    param_sweep::<10, 20, 10, 20, 10>(prop, out);
+    param_sweep::<3, 5, 7, 2, 4>(prop, out);
+    param_sweep::<0, 0, 0, 0, 0>(prop, out);
+    param_sweep::<1, 0, 2, 0, 1>(prop, out);
+    param_sweep::<0, 3, 0, 3, 0>(prop, out);
+    param_sweep::<12, 30, 5, 15, 3>(prop, out);
+    param_sweep::<1, 1, 1, 1, 1>(prop, out);
+}
+
+/// A write that FAILS must not be counted: the wrapper over a writer whose fixed slice is full.
+pub fn failing_writes(prop: &str, out: &mut Outcome) {
+    out.cov.configs.insert("stats-wrapper/failing-writer".into());
+    for dynamic in [false, true] {
+        let r = std::panic::catch_unwind(|| {
+            let w = CodesStatsWrapper::<Codes>::new(Codes::Gamma);
+            let mut wr = BufBitWriter::<BE, _>::new(MemWordWriterSlice::new(vec![0u64; 1]));
+            let mut ok = 0u64;
+            let mut failed = 0u64;
+            let mut okbits = 0u64;
+            for i in 0..40u64 {
+                let v = 1000 + i;
+                let r = if dynamic { DynamicCodeWrite::write(&w, &mut wr, v) } else { StaticCodeWrite::write(&w, &mut wr, v) };
+                match r {
+                    Ok(n) => {
+                        ok += 1;
+                        okbits += n as u64;
+                    }
+                    Err(_) => {
+                        failed += 1;
+                        if failed == 3 {
+                            break;
+                        }
+                    }
+                }
+            }
+            std::mem::forget(wr);
+            let st = *w.stats().lock().unwrap();
+            (ok, failed, okbits, st.total, st.gamma)
+        });
+        out.cov.evaluations += 1;
+        out.cov.nontrivial += 1;
+        let (sym, detail) = match r {
+            Ok((ok, failed, okbits, total, gamma)) => {
+                if failed == 0 {
+                    ("machinery", "the fixed slice never filled up".to_string())
+                } else if total != ok || gamma != okbits {
+                    ("total", format!("{} writes succeeded ({} bits) and {} failed on a full slice, but the statistics count {} elements and {} gamma bits", ok, okbits, failed, total, gamma))
+                } else {
+                    continue;
+                }
+            }
+            Err(p) => ("panic", format!("panicked: {}", crate::util::panic_msg(&p))),
+        };
+        out.violations.push(Violation { property: prop.into(), system: "stats-wrapper".into(), config: if dynamic { "dynamic".into() } else { "static".into() }, op_class: "write".into(), symptom: sym.into(), detail, replay: json!({"kind": "none"}) });
+    }
+}
+
 pub fn c15(ctx: &Ctx) -> (CheckMeta, Outcome) {
     // cost table: reference length, cross-checked against the real writer where the codeword is short
     let tr = tracked();
@@ -233,6 +406,11 @@ pub fn c15(ctx: &Ctx) -> (CheckMeta, Outcome) {
                 }
             }
         }
+    }
+    // other instantiations of the generic statistics types, and writes that fail
+    if crate::pool::is_primary() {
+        param_sweeps("C15", &mut pre);
+        failing_writes("C15", &mut pre);
     }
     // best_code over the whole field space: for EVERY tracked field, statistics in which that field
     // is the strict minimum (built through the public fields) must report the code the field denotes
@@ -426,7 +604,7 @@ pub fn c15(ctx: &Ctx) -> (CheckMeta, Outcome) {
     let meta = CheckMeta {
         property: "C15".into(),
         level: "model_checking".into(),
-        rule: "concurrent half: loom (the wrapper's Mutex is loom's under --cfg dsi_bitstream_verif) explores every interleaving, within the preemption bound stated per model, of 2-3 threads performing 1-3 reads/writes through ONE shared CodesStatsWrapper; after join the statistics must equal the sequential result (states = executions explored). Sequential half: a single-value sweep (every value below 4096 and the boundary grids of all 55 tracked codes, incl. multiples of every Golomb modulus around every power of two: each field grows by exactly the reference length); ALL 1001 multisets of size <= 4 over the 10-value alphabet {0,1,63,64,1023,1024,65535,65537,2^32,2^40+1}: every public total = sum of reference codeword lengths (cross-checked against the real writer's actual sizes where the codeword is <= 4096 bits) under the code/parameter the field denotes; total count; best_code() = argmin with that cost and re-encoding with the returned code costs exactly that; for EVERY one of the 55 tracked fields, statistics built through the public fields in which that field is the strict minimum must report the code that field denotes; update_many with multiplicities; every split into <= 3 parts merged by add, +=, +, sum and a reordered +; statistics gathered by CodesStatsWrapper on writes and on reads (dynamic and static dispatch) for three wrapped codes".into(),
+        rule: "concurrent half: loom (the wrapper's Mutex is loom's under --cfg dsi_bitstream_verif) explores every interleaving, within the preemption bound stated per model, of 2-3 threads performing 1-3 reads/writes through ONE shared CodesStatsWrapper; after join the statistics must equal the sequential result (states = executions explored). Sequential half: eight instantiations of the generic statistics types (default, unequal family sizes, zero-sized families, larger ones) with the same oracle through update/update_many/merge/best_code and the wrapper on writes and reads; writes that FAIL (full fixed slice) through the wrapper must not be counted; a single-value sweep (every value below 4096 and the boundary grids of all 55 tracked codes, incl. multiples of every Golomb modulus around every power of two: each field grows by exactly the reference length); ALL 1001 multisets of size <= 4 over the 10-value alphabet {0,1,63,64,1023,1024,65535,65537,2^32,2^40+1}: every public total = sum of reference codeword lengths (cross-checked against the real writer's actual sizes where the codeword is <= 4096 bits) under the code/parameter the field denotes; total count; best_code() = argmin with that cost and re-encoding with the returned code costs exactly that; for EVERY one of the 55 tracked fields, statistics built through the public fields in which that field is the strict minimum must report the code that field denotes; update_many with multiplicities; every split into <= 3 parts merged by add, +=, +, sum and a reordered +; statistics gathered by CodesStatsWrapper on writes and on reads (dynamic and static dispatch) for three wrapped codes".into(),
         assumptions: vec!["loom models sequentially consistent executions plus its C11 memory model for the Mutex; preemption bound 3 (unbounded for the smallest models)".into()],
     };
     (meta, out)
